@@ -670,6 +670,40 @@ fn run_stackseq<W: Write>(thorough: bool, seed: u64, shard: u64, nshards: u64, o
     }
 }
 
+/// random straight-line sequences over ALL instruction classes without control transfer: state left by one
+/// instruction (flags, registers, memory, stack) is consumed by the next
+fn run_mixseq<W: Write>(thorough: bool, seed: u64, shard: u64, nshards: u64, out: &mut W) {
+    let mut g = Gen { rng: Rng::new(seed ^ 0x31c5), memseed: seed % 7 + 1 };
+    let mut b = Bench::new();
+    let n = if thorough { 60_000 } else { 6_000 };
+    for i in 0..n {
+        let len = 2 + g.rng.below(if i % 40 == 0 { 40 } else { 7 }) as usize;
+        let mut lines: Vec<String> = Vec::new();
+        // every third sequence only from the classes whose flags are fully defined (compared with the reference itself)
+        let pool: &[&str] = if i % 3 == 0 { &["arith", "mov", "xfer", "stack", "ctl", "string"] } else { &["arith", "logic", "shift", "muldiv", "mov", "xfer", "stack", "ctl", "string"] };
+        for _ in 0..len {
+            let class = *g.rng.pick(pool);
+            let l = g.line(class);
+            // no repeat prefixes / interrupts / transfers inside a straight-line sequence
+            if l.starts_with("rep") || l.starts_with("int") || l.starts_with("call") || l.starts_with("ret") || l.starts_with("hlt") {
+                continue;
+            }
+            lines.push(l);
+        }
+        if lines.len() < 2 {
+            continue;
+        }
+        let r = g.regs();
+        let regs = r.iter().map(|x| x.to_string()).collect::<Vec<_>>().join(" ");
+        let req = format!("xs {} | {} | - | {} | {} | - | {} | {}", regs, g.memseed, LABELS, FNS, g.rng.below(50), lines.join(" ; "));
+        if crate::rng::fnv1a(&req) % nshards != shard {
+            continue;
+        }
+        let a = answer_with(&mut b, &req);
+        writeln!(out, "{} => {}", req, a).unwrap();
+    }
+}
+
 /// MUL/IMUL/DIV/IDIV on the boundary lattice of (DX:AX, operand): divisors 0 / 1 / -1, MIN dividends, quotient-overflow edges
 fn run_divx<W: Write>(thorough: bool, seed: u64, shard: u64, nshards: u64, out: &mut W) {
     let mut g = Gen { rng: Rng::new(seed ^ 0xd1f), memseed: seed % 7 + 1 };
@@ -713,6 +747,9 @@ pub fn run<W: Write>(group: &str, thorough: bool, seed: u64, shard: u64, nshards
     }
     if group == "stackseq" {
         return run_stackseq(thorough, seed, shard, nshards, out);
+    }
+    if group == "mixseq" {
+        return run_mixseq(thorough, seed, shard, nshards, out);
     }
     if group == "jumpx" {
         return run_jumpx(thorough, seed, shard, nshards, out);
